@@ -390,15 +390,20 @@ def _eval_level(prog, provided, *, path, fail, responses, top_levels, stop) -> R
             gates = ctrl.get(me, [])
             activated = not gates
             lvl = 0
+            act_levels = []  # the node is activated as soon as ONE controlling gate allows it
             for g in gates:
                 gname = node_name(g)
                 if decided[gname]:
                     if decision_names(gate_dec[gname], me):
                         activated = True
-                        lvl = max(lvl, R.level[gname] + 1)
+                        act_levels.append(R.level[gname] + 1)
                 elif g.get("open", True) and gname not in failed_nodes:
                     # a gate that never runs never closes a default-open target
                     activated = True
+                    act_levels.append(0)
+            if act_levels:
+                lvl = min(act_levels)
+            gate_levels = {R.level[node_name(g)] for g in gates if decided.get(node_name(g))}
             # arguments
             args: dict[str, Any] = {}
             sat = True
@@ -430,6 +435,10 @@ def _eval_level(prog, provided, *, path, fail, responses, top_levels, stop) -> R
                         sat = False
                     else:
                         lvl = max(lvl, max(R.level[node_name(p)] for p in rp) + 1)
+            # a gate and its targets never share a step: the gate decides first
+            if gates:
+                while lvl in gate_levels:
+                    lvl += 1
             runs = sat and activated
             if runs and stop is not None and lvl > stop:
                 runs = False
